@@ -95,6 +95,61 @@ type wsRun struct {
 	disks []map[string]string
 	bufs  []map[string]string
 	dead  bool
+	qsteps []wsQStep // the query bundle asked after the last event
+	qans  map[string][]string
+}
+
+// wsQStep is one query of the bundle: which abstract file its answer is filed under ("ws" for workspace-wide ones).
+type wsQStep struct {
+	key   string
+	label string
+	step  int
+}
+
+// wsQueries is the fixed bundle of read-only questions asked about a disk state: hover, definition and references at the
+// three columns where the content variants have their identifiers / module string, the outline of every file, and two
+// workspace symbol searches. Position questions are asked about open documents only.
+func wsQueries(disk, bufs map[string]string) (steps []proto.Step, meta []wsQStep) {
+	var fs []string
+	for f := range disk {
+		fs = append(fs, f)
+	}
+	sort.Strings(fs)
+	for _, f := range fs {
+		if disk[f] == "absent" || bufs[f] == "closed" || bufs[f] == "" {
+			continue // an editor asks about documents it has open
+		}
+		fn := wsFileName[f]
+		for _, col := range []int{0, 6, 9} {
+			for _, m := range []string{"textDocument/hover", "textDocument/definition", "textDocument/references"} {
+				p := posParams(fn, 0, col)
+				if m == "textDocument/references" {
+					p = refParams(fn, 0, col)
+				}
+				steps = append(steps, proto.Step{M: m, P: p})
+				meta = append(meta, wsQStep{key: f, label: fmt.Sprintf("%s@0:%d", strings.TrimPrefix(m, "textDocument/"), col), step: len(steps) - 1})
+			}
+		}
+		steps = append(steps, proto.Step{M: "textDocument/documentSymbol", P: json.RawMessage(fmt.Sprintf(`{"textDocument":{"uri":"file://$ROOT/%s"}}`, fn))})
+		meta = append(meta, wsQStep{key: f, label: "outline", step: len(steps) - 1})
+	}
+	for _, q := range []string{"gshared", "x"} {
+		steps = append(steps, proto.Step{M: "workspace/symbol", P: json.RawMessage(fmt.Sprintf(`{"query":%q}`, q))})
+		meta = append(meta, wsQStep{key: "f1", label: "wsym:" + q, step: len(steps) - 1})
+	}
+	return
+}
+
+// wsAnswers files the digests of a bundle's answers under their abstract file.
+func wsAnswers(root string, res *proto.Result, base int, meta []wsQStep) map[string][]string {
+	out := map[string][]string{"f1": {}, "f2": {}, "f3": {}}
+	for _, q := range meta {
+		if base+q.step >= len(res.Steps) {
+			continue
+		}
+		out[q.key] = append(out[q.key], q.label+"="+digest(root, &res.Steps[base+q.step]))
+	}
+	return out
 }
 
 func diskKey(d map[string]string) string {
@@ -164,6 +219,14 @@ func wsBuild(id int, raw json.RawMessage) *Job {
 		run.disks = append(run.disks, cp(disk))
 		run.bufs = append(run.bufs, cp(buf))
 	}
+	// after the last event: the query bundle (compared with a fresh server's answers when no buffer is dirty there)
+	qs, meta := wsQueries(disk, buf)
+	base := len(pc.Steps)
+	for i := range meta {
+		meta[i].step += base
+	}
+	pc.Steps = append(pc.Steps, qs...)
+	run.qsteps = meta
 	return &Job{PC: pc, Data: run}
 }
 
@@ -173,7 +236,7 @@ func checkC08(c *Ctx) {
 		"content variants are rendered by a fixed table (clean, syntax error, unused local, defines/uses a shared global, requires f2 / sub.f3)",
 		"external Modify/Delete only happen to files that are not open in the editor; Edit sends the full new text",
 		"the Dirty obligation is asserted only while no disk event happened since the buffer became dirty (otherwise 'last saved' is ambiguous: UNSPECIFIED)",
-		"fresh-server oracle is memoised per disk state; answers to queries (second half of the statement's first sentence) are not compared yet",
+		"fresh-server oracle is memoised per disk state; the answers to a fixed bundle of queries (hover, definition, references at three columns of line 0 of every file, every outline, two workspace symbol searches; compared as order-insensitive digests) are compared after the last event of every history",
 	}
 	p := c.NewPool(0)
 	var runs []*Job
@@ -196,6 +259,7 @@ func checkC08(c *Ctx) {
 			}
 			run.views = append(run.views, viewOf(res.Root, view))
 		}
+		run.qans = wsAnswers(res.Root, res, 0, run.qsteps)
 		runs = append(runs, j)
 	}
 	cfg := func(mode string, maxHist int, invs string) string {
@@ -258,6 +322,44 @@ func checkC08(c *Ctx) {
 		oidx[i+1] = d
 		ocases = append(ocases, []*proto.Case{pc})
 	}
+	// query oracle: a fresh server on the final disk of a history that opens the same documents and is asked the same bundle
+	freshQ := map[string]map[string][]string{}
+	qkey := func(disk, bufs map[string]string) string {
+		k := diskKey(disk) + "#"
+		for _, f := range []string{"f1", "f2", "f3"} {
+			if bufs[f] != "closed" && bufs[f] != "" && disk[f] != "absent" {
+				k += f
+			}
+		}
+		return k
+	}
+	type qst struct{ disk, bufs map[string]string }
+	qidx := map[int]qst{}
+	var qcases [][]*proto.Case
+	for _, j := range runs {
+		run := j.Data.(*wsRun)
+		last := len(run.disks) - 1
+		k := qkey(run.disks[last], run.bufs[last])
+		if _, ok := freshQ[k]; ok {
+			continue
+		}
+		freshQ[k] = nil
+		pc := &proto.Case{ID: len(qcases) + 1, Files: map[string]string{}, Init: json.RawMessage(allOnLocal)}
+		for f, v := range run.disks[last] {
+			if v != "absent" {
+				pc.Files[wsFileName[f]] = wsText(f, v)
+			}
+		}
+		for _, f := range []string{"f1", "f2", "f3"} {
+			if b := run.bufs[last][f]; b != "closed" && b != "" && run.disks[last][f] != "absent" {
+				pc.Steps = append(pc.Steps, openStep(wsFileName[f], wsText(f, run.disks[last][f])))
+			}
+		}
+		qidx[pc.ID] = qst{run.disks[last], run.bufs[last]}
+		qs, _ := wsQueries(run.disks[last], run.bufs[last])
+		pc.Steps = append(pc.Steps, qs...)
+		qcases = append(qcases, []*proto.Case{pc})
+	}
 	po := c.NewPool(0)
 	po.BaseDir += "o"
 	po.RunSlice(ocases, func(pc *proto.Case, res *proto.Result) {
@@ -269,6 +371,15 @@ func checkC08(c *Ctx) {
 		}
 		fresh[diskKey(oidx[pc.ID])] = viewOf(res.Root, view)
 	})
+	po.RunSlice(qcases, func(pc *proto.Case, res *proto.Result) {
+		q := qidx[pc.ID]
+		if res.Crash != "" || res.Hang {
+			return
+		}
+		qs, meta := wsQueries(q.disk, q.bufs)
+		freshQ[qkey(q.disk, q.bufs)] = wsAnswers(res.Root, res, len(pc.Steps)-len(qs), meta)
+	})
+	c.Rep.Extra["fresh_query_oracle_states"] = len(qcases)
 	syn := map[string][]tdiag{} // "f|v" -> type-1 diagnostics of a workspace holding only that file
 	var scases [][]*proto.Case
 	sidx := map[int]string{}
@@ -308,6 +419,9 @@ func checkC08(c *Ctx) {
 		Client wsView            `json:"client"`
 		Fresh  wsView            `json:"fresh"`
 		Syn    wsView            `json:"syn"`
+		Q      bool              `json:"q"` // the query bundle was asked after this event
+		QC     map[string][]string `json:"qclient"`
+		QF     map[string][]string `json:"qfresh"`
 	}
 	byID := map[int]*Job{}
 	validate := func(batch []*Job) bool {
@@ -326,6 +440,10 @@ func checkC08(c *Ctx) {
 					if b := run.bufs[k][f]; b != "closed" {
 						ln.Syn[f] = syn[f+"|"+b]
 					}
+				}
+				ln.QC, ln.QF = map[string][]string{"f1": {}, "f2": {}, "f3": {}}, map[string][]string{"f1": {}, "f2": {}, "f3": {}}
+				if k == len(run.tc.Hist) && run.qans != nil && freshQ[qkey(run.disks[k], run.bufs[k])] != nil {
+					ln.Q, ln.QC, ln.QF = true, run.qans, freshQ[qkey(run.disks[k], run.bufs[k])]
 				}
 				if k == 0 {
 					ln.Ev = "Reset"
@@ -349,6 +467,7 @@ func checkC08(c *Ctx) {
 					Step  int      `json:"step"`
 					Fresh []string `json:"fresh"`
 					Dirty []string `json:"dirty"`
+					Query []string `json:"query"`
 				}
 				if json.Unmarshal(jr, &o) != nil {
 					return
@@ -367,14 +486,24 @@ func checkC08(c *Ctx) {
 					fr := fresh[diskKey(run.disks[o.Step])][f]
 					fmt.Fprintf(&sb, " %s: client=%v fresh=%v syn(buf)=%v;", f, run.views[o.Step][f], fr, syn[f+"|"+run.bufs[o.Step][f]])
 				}
+				for _, f := range o.Query {
+					fq := freshQ[qkey(run.disks[o.Step], run.bufs[o.Step])][f]
+					var diff []string
+					for i, a := range run.qans[f] {
+						if i >= len(fq) || fq[i] != a {
+							diff = append(diff, strings.SplitN(a, "=", 2)[0])
+						}
+					}
+					fmt.Fprintf(&sb, " %s: answers that differ from a fresh server's: %v;", f, diff)
+				}
 				evs, _ := json.Marshal(run.tc.Hist[:o.Step])
-				desc := fmt.Sprintf("after event %d of the history (disk0=%v events=%s) obligation(s) Fresh%v Dirty%v of C08 are broken:%s", o.Step, run.tc.Disk0, evs, o.Fresh, o.Dirty, sb.String())
+				desc := fmt.Sprintf("after event %d of the history (disk0=%v events=%s) obligation(s) Fresh%v Dirty%v Queries%v of C08 are broken:%s", o.Step, run.tc.Disk0, evs, o.Fresh, o.Dirty, o.Query, sb.String())
 				if surveyMode {
 					last := "start"
 					if o.Step > 0 {
 						last = run.tc.Hist[o.Step-1].Ev
 					}
-					sv.add(fmt.Sprintf("fresh=%d dirty=%d after %s", len(o.Fresh), len(o.Dirty), last), desc)
+					sv.add(fmt.Sprintf("fresh=%d dirty=%d query=%d after %s", len(o.Fresh), len(o.Dirty), len(o.Query), last), desc)
 					return
 				}
 				c.Rep.Violation(j.Raw, desc)
